@@ -32,8 +32,18 @@ def gen_cases(seed, tier, n):
         c["params"] = {"pseed": rng.randint(0, 10 ** 9)}
         if i % 3 == 1:
             tracegen.relabel_ranks(c)      # a subset of a job: rank ids are not 0..n-1, and not listed in order
+        if i % 4 == 2:
+            # a device-side annotation over the first kernels of a stream, so that the annotation analysis has something to do
+            for rk in c["ranks"].values():
+                ks = [e for e in rk["events"] if e.get("cat") == "kernel" and isinstance((e.get("args") or {}).get("stream"), int)]
+                if ks:
+                    k0 = min(ks, key=lambda e: e["ts"])
+                    rk["events"].append({"ph": "X", "cat": "gpu_user_annotation", "name": "fwd", "pid": k0["pid"], "tid": k0["tid"], "ts": k0["ts"],
+                                         "dur": k0["dur"] + 3, "args": {"stream": k0["args"]["stream"]}})
         if i % 8 == 6:
             fw.set_quarter_us(c)           # quarter-microsecond resolution (framework.resolution); the threshold is scaled with the times
+        if i % 16 == 3 and not c["params"].get("quarter_us"):
+            tracegen.scale_case_int32_edge(c)    # latest start just below 2**31, latest ends above
         if i % 16 == 11 and not c["params"].get("quarter_us"):
             tracegen.scale_case(c, 10 ** 8)     # a long trace: sums beyond 2**24 and 2**31 (the models are homogeneous in time)
         out.append(c)
@@ -74,6 +84,13 @@ def _run_impl(case, d):
         ssel = sorted(rng.sample(union, rng.randint(1, len(union))))
     else:
         ssel = None
+    if case.get("case_no", 0) % 4 == 2:
+        # history: another per-rank analysis of the same object runs first (kernels matched to device-side annotations)
+        for r in ranks:
+            try:
+                ta.get_gpu_kernels_with_user_annotations(r)
+            except Exception:
+                pass
     try:
         df, _ = ta.get_idle_time_breakdown(ranks=ranks, streams=ssel, visualize=False, consecutive_kernel_delay=(d_ if k == 1 else d_ / k))
         out = []
